@@ -72,6 +72,8 @@ def fault_snippets(w):
         'truncated-def': (['def zz_t a, b'], 'eof', ['syntax error', 'end of file']),
         'empty-program': ([''], 'only', ['first op', 'empty', 'address 0']),
         'no-first-op': (['segment 0x1000', ';'], 'only', ['first op', 'address 0']),
+        'internal-label-redeclared': ([';', 'segment 16*w', ';', 'ns _ {', 'wflip_area_start_0:', '}'], 'only', ['wflip_area_start_0']),
+        'internal-label-predeclared': ([';', 'ns _ {', 'wflip_area_start_0:', '}', ';', 'segment 16*w', ';'], 'only', ['wflip_area_start_0']),
         'huge-literal': ([';' + '9' * 5000], 'end', ['literal', 'number', 'digit', 'too', 'long', 'big', 'fit', 'bits', 'range']),
     }
     for opname, bad in (('div-zero', '5 / %s'), ('mod-zero', '5 %% %s'), ('neg-shift', '1 << (%s - 1)'), ('neg-exponent', '2 ** (%s - 1)')):
